@@ -16,3 +16,27 @@ func verifReplayIdentifierFromString(id string) (err error) {
 	_ = IdentifierFromString(id)
 	return nil
 }
+
+func verifRender(id string, ignoreCase bool) string {
+	if ignoreCase {
+		return id
+	}
+	return "\"" + id + "\""
+}
+
+// verifReplaySelectDecision builds "SELECT * FROM [qual.]table" from the identifiers of a
+// counterexample and compares IsQueryHandled with the documented rule.
+func verifReplaySelectDecision(cur string, curIC bool, dotted bool, qual string, qualIC bool, table string, tableIC bool) error {
+	q := "SELECT * FROM "
+	if dotted {
+		q += verifRender(qual, qualIC) + "."
+	}
+	q += verifRender(table, tableIC)
+	current := Identifier{id: cur, ignoreCase: curIC}
+	handled, _, _ := IsQueryHandled(current, q)
+	want := verifSpecHandledSelect(current, dotted, Identifier{id: qual, ignoreCase: qualIC}, Identifier{id: table, ignoreCase: tableIC})
+	if handled != want {
+		return fmt.Errorf("IsQueryHandled(current keyspace %s, %q) = %v; by the documented rule it must be %v", current, q, handled, want)
+	}
+	return nil
+}
